@@ -23,7 +23,7 @@ EXPLANATION = (
     "column f by an unfiltered X.assign)."
 )
 NOT_DECIDED = "equality of the produced columns with an independent BinaryCarver on data"
-FLOORS = {"R-forward-all": 13, "R-fresh-per-class": 3, "R-class-domain": 3, "R-suffix": 7}
+FLOORS = {"R-forward-all": 13, "R-fresh-per-class": 4, "R-class-domain": 3, "R-suffix": 7}
 
 EXCEPTIONS = {
     "copy": "literal True: the per-class carver must not transform the shared frame in place",
@@ -94,6 +94,13 @@ def rule_fresh(ctx):
     ctx.ob(R, construct(fi, "BinaryCarver(copy=True).fit leaves the shared x_copy / x_dev_copy / targets untouched"), not bad, loc(fi),
            "" if not bad else f"{bad[0].fn}: {bad[0].expr}")
     f_init, s_init = eng.method_summary(bcls, "__init__", True)
+    # no attribute keeps a caller's list / dict by reference and is then mutated while fitting: the
+    # MulticlassCarver hands its own feature lists to every per-class carver
+    aliased = {k[1]: sorted(p[0][2:] for p in v if p[0].startswith("p:")) for k, v in s_init.heap_out.items() if any(p[0].startswith("p:") for p in v)}
+    mutated = {e.path[1] for e in s_fit.events if e.kind == "mut" and e.path[0] == "self" and e.path[1]}
+    shared = sorted(a for a in aliased if a in mutated)
+    ctx.ob(R, construct(fi, "BinaryCarver keeps no caller-owned list that its fit mutates (feature lists are copied by __init__)"), not shared, loc(fi),
+           "" if not shared else f"self.{shared[0]} is the caller's `{aliased[shared[0]][0]}` object and _remove_feature mutates it: a feature dropped for one class disappears from the list the next class is built from")
     bad = [e for e in s_init.events if e.kind == "mut" and e.path[0] == "p:values_orders"]
     heap = s_init.heap_out.get(("self", "values_orders"), frozenset())
     shares = any(p[0] == "p:values_orders" for p in heap)
@@ -203,6 +210,7 @@ MUTANTS = [
     M("per-class carver works in place", [(F_MULTI, "                copy=True,  # copying x to keep raw columns as is", "                copy=self.copy,  # copying x to keep raw columns as is")], "R-forward-all", "copy", quick=True),
     M("only ordinal orders handed to the per-class carvers", [(F_MULTI, "raw_values_orders = {feature: order for feature, order in self.values_orders.items()}", "raw_values_orders = {feature: order for feature, order in self.values_orders.items() if feature in self.ordinal_features}")], "R-forward-all", "values_orders"),
     M("existing casted columns are not rebuilt at transform", [(F_BASE, "                    for casted_feature in feature_casting\n                }", "                    for casted_feature in feature_casting\n                    if casted_feature not in X\n                }")], "R-suffix", "casted column"),
+    M("ordinal feature list stored by reference", [("AutoCarver/carvers/base_carver.py", "        self.ordinal_features = list(set(ordinal_features))\n        self.features = list(set(quantitative_features + qualitative_features + ordinal_features))\n\n        # checking that qualitatitve", "        self.ordinal_features = ordinal_features\n        self.features = list(set(quantitative_features + qualitative_features + ordinal_features))\n\n        # checking that qualitatitve")], "R-fresh-per-class", "caller-owned"),
     M("fitted orders of the previous class reused", [(F_MULTI, "                values_orders=raw_values_orders,", "                values_orders=self.values_orders if n == 0 else casted_values_orders,")], "R-forward-all", "values_orders"),
     M("all classes kept", [(F_MULTI, "        y_classes = sorted(list(y_copy.unique()))[1:]  # removing one of the classes", "        y_classes = sorted(list(y_copy.unique()))  # removing one of the classes")], "R-class-domain", "classes ="),
     M("classes in order of appearance", [(F_MULTI, "        y_classes = sorted(list(y_copy.unique()))[1:]  # removing one of the classes", "        y_classes = list(y_copy.unique())[1:]  # removing one of the classes")], "R-class-domain", "classes ="),
